@@ -11,9 +11,9 @@ BASELINE = "cd /repo && /venv/bin/python -m pytest -ra -q -p no:cacheprovider --
 CHECKS = {
     "C01": dict(
         level="exploration",
-        technique="deviation-bounded enumeration (k<=1 quick, k<=2 thorough) of wavefunction objects x 5 targets x allow_changes on the real dump_one/load_one, independent GTO evaluator as oracle on the reloaded object AND on an independent parse of the written FCHK/WFN/WFX file; corpus sweep",
+        technique="deviation-bounded enumeration (k<=1 quick, k<=2 thorough) of wavefunction objects x 5 targets x allow_changes on the real dump_one/load_one, independent GTO evaluator as oracle on the reloaded object AND on an independent parse of the written FCHK/WFN/WFX/Molden file; corpus sweep",
         text="Every wavefunction object with <=k deviations over centers, shell set, contraction scheme, shell order, conventions, orbital kind, extras is written to FCHK, Molden, Molekel, WFN, WFX "
-        "with and without allow_changes; a written file must reload to the same nuclei, orbital values at 14 probe points, occupations, energies, spin and densities; the written FCHK/WFN/WFX file is also parsed by ref/wfreaders.py (no iodata reader) and must denote the same orbitals, occupations, energies and densities; full products shell order x conventions and (FCHK) conventions x stored density matrices; every corpus wavefunction file is converted to every target.",
+        "with and without allow_changes; a written file must reload to the same nuclei, orbital values at 14 probe points, occupations, energies, spin and densities; the written FCHK/WFN/WFX/Molden file is also parsed by ref/wfreaders.py (no iodata reader) and must denote the same orbitals, occupations, energies and densities; full products shell order x conventions and (FCHK) conventions x stored density matrices; every corpus wavefunction file is converted to every target.",
         note="orbital values by ref/gto.py on the source (rounded to the printed digits of exponents/contractions) and on the reloaded object; tolerances = 0.6 unit in the last printed place, linearly propagated",
         design="DESIGN.md §2 C01",
     ),
@@ -27,8 +27,8 @@ CHECKS = {
     ),
     "C03": dict(
         level="exploration",
-        technique="deviation-bounded enumeration (k<=1 quick, k<=2 thorough) of files produced by independent writers for 18 formats (incl. FCHK, WFN, WFX with orbital values evaluated from the file tables, GAMESS punch) + exhaustive (budgeted) single-token metamorphic substitution on generated and corpus files of all format modules, on the real load_one/load_many",
-        text="Independent writers following the public layouts (FCHK, WFN, WFX, GAMESS punch, XYZ, extXYZ, PDB, MOL2, SDF, GRO, CRD, POSCAR, CHGCAR, LOCPOT, cube, Gaussian input, FCIDUMP, Gaussian log) with counters crossing their widths, column-filling/touching "
+        technique="deviation-bounded enumeration (k<=1 quick, k<=2 thorough) of files produced by independent writers for 19 formats (incl. FCHK, WFN, WFX, MWFN with orbital values evaluated from the file tables, GAMESS punch) + exhaustive (budgeted) single-token metamorphic substitution on generated and corpus files of all format modules, on the real load_one/load_many",
+        text="Independent writers following the public layouts (FCHK, WFN, WFX, MWFN, GAMESS punch, XYZ, extXYZ, PDB, MOL2, SDF, GRO, CRD, POSCAR, CHGCAR, LOCPOT, cube, Gaussian input, FCIDUMP, Gaussian log) with counters crossing their widths, column-filling/touching "
         "fields, negative and wide values, every bond type, block boundaries (100+ Hessian row labels, 5-column blocks), name-labelled rows in permuted order, header variants; every loaded attribute compared with the model. Metamorphic: each uniquely locatable numeric token replaced by another value of the same width; "
         "the attribute element that held it must take the new value under the format's unit map.",
         note="hand-typed CODATA factors (5e-9 relative slack for CODATA releases); Molden/Molekel layouts by C05's writers; MWFN and the program logs (GAMESS, ORCA, Q-Chem, CP2K) by the metamorphic part",
@@ -45,7 +45,7 @@ CHECKS = {
     "C05": dict(
         level="exploration",
         technique="exhaustive product (shell subsets x Cartesian/pure x 7 vendor encodings) + deviation-bounded variation of container/orbitals/threshold/corruption on the real Molden/Molekel loaders, independent encoders and evaluator",
-        text="Every non-empty subset of l=0..3 (quick) / 0..5 (thorough), each l>=2 Cartesian or pure, encoded as standard, ORCA, PSI4<=1.0, Turbomole, CFOUR 2.1, unnormalised contractions, PSI4<=1.3.2 by independent writers; "
+        text="Every non-empty subset of l=0..3 (quick) / 0..5 (thorough), each l>=2 Cartesian or pure, encoded as standard, ORCA, PSI4<=1.0, Turbomole, CFOUR 2.1, unnormalised contractions, PSI4<=1.3.2 by independent writers (primitives listed in decreasing / increasing order, bonded / stretched geometry); "
         "loaded orbitals must equal the true wavefunction at 10 probe points and be orthonormal under the reference overlap, a LoadWarning iff the encoding differs from the standard, corrupted files rejected or normalised within threshold.",
         note="encoders restate the quirks as iodata documents them; any correction label accepted where encodings coincide; corpus vendor files anchor the encoders",
         design="DESIGN.md §2 C05",
@@ -54,7 +54,7 @@ CHECKS = {
         level="exploration",
         technique="exhaustive grid identity for the 1-D kernel (degree argument), exhaustive table comparison, deviation-bounded enumeration over all ordered shell-type pairs on the real compute_overlap",
         text="1-D kernel: all 64 (n1,n2)<=7 on a full 9x9x9 grid vs Gauss-Hermite quadrature (polynomial identity => all reals); every entry of the Cartesian-to-pure tables l<=7 and normalisation constants; "
-        "compute_overlap on all ordered pairs of shell types (l<=4 quick, l<=7 thorough; Cartesian and pure) x k<=1/2 deviations over geometry, contraction, conventions, one/two bases, exponent sets, "
+        "compute_overlap on all ordered pairs of shell types (l<=4 quick, l<=7 thorough; Cartesian and pure) x k<=1/2 deviations over geometry, contraction (primitives in any order), conventions, one/two bases, exponent sets (distance x primitive order as a full product), "
         "compared with an independent quadrature overlap; symmetry, PSD, transpose, translation and rejection clauses.",
         note="reference = ref/gto.py (closed-form solid harmonics in exact rationals, 30-node Gauss-Hermite); screened contributions (<1e-15 prefactor) are computed by the reference and added to the tolerance",
         design="DESIGN.md §2 C06",
@@ -103,7 +103,7 @@ CHECKS = {
     "C12": dict(
         level="model_checking",
         technique="explicit-state BFS over assignment histories on the real MolecularOrbitals class + full products over constructor/Shell arguments",
-        text="All histories of <=3 assignments/reads from every restricted/unrestricted start object (norba,norbb<=2 quick / <=3 thorough, 4 initial occupation patterns, 3 occs_aminusb settings) with "
+        text="All histories of <=3 assignments/reads from every restricted/unrestricted start object (norba,norbb<=2 quick / <=3 thorough, 5 initial occupation patterns incl. occupations within 1e-10 of integers, 3 occs_aminusb settings) with "
         "invariants, read-back and other-spin-unchanged oracles on every transition; full constructor product and all Shell argument combinations with every single shape mismatch.",
         note="menus of 3 arrays per length plus wrong lengths n+1, n-1, 1 (broadcastable); invariants only demand what the statement says",
         design="DESIGN.md §2 C12",
@@ -119,7 +119,7 @@ CHECKS = {
     "C14": dict(
         level="exploration",
         technique="exhaustive enumeration of shell sequences / orbital sets on the real conversion functions, independent function evaluator as oracle",
-        text="All shell sequences of length <=3 over 10 (quick) / 12 (thorough) shell kinds x keep_sp, all restricted orbital sets norb<=4 x occupation pattern x occs_aminusb x missing arrays, "
+        text="All shell sequences of length <=3 over 10 (quick) / 12 (thorough) shell kinds x keep_sp, all restricted orbital sets norb<=4 x occupation pattern (closed, open, fractional, near-integer) x occs_aminusb x missing arrays, "
         "each x allow_changes for prepare_*; structure, function values in order, overlap, idempotence, same-object and warning/error contract.",
         note="function values by ref/gto.py at 8 probe points; expected alpha/beta occupations restated from the class documentation",
         design="DESIGN.md §2 C14",
